@@ -257,7 +257,12 @@ pub fn object_oracles(data: &[u8]) -> Result<bool, String> {
 	let ops = dec_ops(&mut u, &keys);
 	let universe: Vec<&str> = keys.iter().map(|s| s.as_str()).collect();
 	let mut nt = false;
-	let (obj, model) = c06::run_history(&ops, &universe, selected("C06")).map_err(|m| format!("C06: {m}"))?;
+	let (obj, model) = match c06::run_history(&ops, &universe, selected("C06")) {
+		Ok(x) => x,
+		Err(m) if selected("C06") => return Err(format!("C06: {m}")),
+		// campaigns for C14 / C15 only need some object with a history: a misbehaving operation is C06's business
+		Err(_) => return Ok(false),
+	};
 	nt |= ops.len() >= 8 && ops.iter().any(|o| matches!(o, c06::Op::Remove(..) | c06::Op::RemoveAt(_) | c06::Op::Insert(..) | c06::Op::InsertFront(..)));
 	if selected("C14") && model.len() <= 40 {
 		props::c14::routes_property(&model, ops.len() as u64).map_err(|m| format!("C14: {m}"))?;
